@@ -27,6 +27,7 @@ IsOk(t)    == StartsWith(t, <<111, 107>>)
 IsError(t) == StartsWith(t, <<101, 114, 114, 111, 114>>) \/ StartsWith(t, <<97, 108, 97, 114, 109>>) \/ StartsWith(t, <<33, 33>>)
 IsAck(t)   == IsOk(t) \/ IsError(t)
 HasSub(t, p) == \E i \in 1..(Len(t) - Len(p) + 1) : SubSeq(t, i, i + Len(p) - 1) = p
+IsReset(t) == HasSub(t, <<77, 49, 49, 48>>)                                                 \* "M110"
 IsStartup(t) == HasSub(t, <<77, 49, 49, 48>>) \/ StartsWith(t, <<103, 52, 32, 112, 48>>)   \* "M110" / "G4 P0"
 
 \* st: calls (seq of texts), ntx (statement transmissions), acks (seq of ack lines released for statements),
@@ -64,13 +65,17 @@ NextSt(e) ==
   CASE e.k = "call" -> [st EXCEPT !.calls = Append(st.calls, e.text)]
     [] e.k = "lost" -> [st EXCEPT !.lost = TRUE]
     [] e.k = "wfail" -> [st EXCEPT !.wfail = TRUE]         \* the port refused a write: the write() in progress must raise
-    [] e.k = "tx" -> IF IsStartup(e.text) THEN [st EXCEPT !.owed = st.owed + 1, !.q = Append(st.q, "hs")]
+    \* the start-up job of a connection transmits the line-number reset twice (opening and closing); finding F12 is about THOSE
+    \* two acknowledgements -- a reset transmitted later (e.g. by a connect() on a connected writer, seed C16h) is not part of it
+    [] e.k = "tx" -> IF IsStartup(e.text)
+                       THEN [st EXCEPT !.owed = st.owed + 1, !.nm = st.nm + (IF IsReset(e.text) THEN 1 ELSE 0),
+                                       !.q = Append(st.q, IF IsReset(e.text) /\ st.nm >= 2 THEN "hs2" ELSE "hs")]
                      ELSE [st EXCEPT !.ntx = st.ntx + 1, !.owed = st.owed + 1, !.q = Append(st.q, "stmt")]
     [] e.k = "rel" ->
          IF IsAck(e.text) /\ st.q # <<>>
            THEN IF Head(st.q) = "stmt"
                   THEN [st EXCEPT !.acks = Append(st.acks, e.text), !.owed = st.owed - 1, !.q = Tail(st.q)]
-                  ELSE [st EXCEPT !.owed = st.owed - 1, !.q = Tail(st.q), !.lateHs = st.lateHs \/ Len(st.calls) >= 1]
+                  ELSE [st EXCEPT !.owed = st.owed - 1, !.q = Tail(st.q), !.lateHs = st.lateHs \/ (Head(st.q) = "hs" /\ Len(st.calls) >= 1)]
            ELSE IF IsError(e.text) /\ st.q = <<>> THEN [st EXCEPT !.alarm = TRUE]       \* unsolicited: nothing is outstanding
            ELSE st
     [] e.k = "ret" -> [st EXCEPT !.alarm = FALSE]
@@ -78,7 +83,7 @@ NextSt(e) ==
 
 Init ==
   /\ tid \in 1..Len(Traces) /\ l = 1
-  /\ st = [calls |-> <<>>, ntx |-> 0, acks |-> <<>>, owed |-> 0, q |-> <<>>, lateHs |-> FALSE, lost |-> FALSE, alarm |-> FALSE, wfail |-> FALSE]
+  /\ st = [calls |-> <<>>, ntx |-> 0, acks |-> <<>>, owed |-> 0, q |-> <<>>, lateHs |-> FALSE, lost |-> FALSE, alarm |-> FALSE, wfail |-> FALSE, nm |-> 0]
   /\ cnt = [c \in Clauses |-> 0]
 Step ==
   /\ l <= Len(Traces[tid].ev)
